@@ -607,6 +607,99 @@ def rule_idx(m):
                                      'emptiness of the neighbour list of the last vertex is known: a graph whose only edges '
                                      'start at the last vertex (e.g. a self-loop on it) enumerates as empty although it has '
                                      'edges'))
+        # ---- S-ADVANCE: the skip loop of begin() and operator++: while (it == out(cur).end() && cur != endVertex) it = out(++cur).begin()
+        for tn in (cls + '::Edges::begin', cls + '::Edges::constEdgeIterator::operator++'):
+            for f in m.by_tname.get(tn, []):
+                if tn.endswith('operator++') and len(f.params) != 0:
+                    continue
+                res.sites += 1
+                tt = Terms(f)
+                whiles = [n for n in f.nodes if n['k'] == 'WhileStmt']
+                why = None
+                if len(whiles) != 1:
+                    why = 'expected one advance loop over empty neighbour lists'
+                else:
+                    w = whiles[0]
+                    cj = [c for c in _conjuncts(tt.t(w['cond'], resolve_refs=False))]
+                    it = cur = None
+                    endv_ok = False
+                    for c in cj:
+                        if c[0] == 'bin' and c[1] == '==' and c[3][0] == 'mcall' and c[3][1] == 'std::list::end' and \
+                                c[3][2][0] == 'mcall' and c[3][2][1].endswith(('::getOutNeighbours', '::getNeighbours')):
+                            it, cur = c[2], c[3][2][3][0]
+                    for c in cj:
+                        if c[0] == 'bin' and c[1] == '!=' and cur is not None and c[2] == cur:
+                            e = c[3]
+                            if (e[0] == 'field' and e[1].endswith('::endVertex')) or \
+                                    (e[0] == 'var' and any(x[0] in ('call', 'mcall') and x[1].endswith('::getEndVertex')
+                                                           for x in [tt.t(d[1]) for d in var_defs(f, e[1]) if d[1] >= 0])):
+                                endv_ok = True
+                    if it is None or not endv_ok or len(cj) != 2:
+                        why = 'the advance loop condition is not `position == out(cursor).end() && cursor != endVertex`'
+                    else:
+                        body = [tt.t(x, resolve_refs=False) for x in f.descendants(w['body'])
+                                if f.nodes[x]['k'] in ('BinaryOperator', 'CXXOperatorCallExpr')]
+                        okb = any(b[0] == 'bin' and b[1] == '=' and b[2] == it and b[3][0] == 'mcall' and b[3][1] == 'std::list::begin'
+                                  and b[3][2][0] == 'mcall' and b[3][2][3] == (('un', '++', False, cur),) for b in body)
+                        if not okb:
+                            why = 'the advance loop body is not `position = out(++cursor).begin()`'
+                        if why is None and tn.endswith('::begin'):
+                            # initial position: cursor 0 and out(0).begin(); result (graph, cursor, position)
+                            inits_it = [tt.t(d[1]) for d in var_defs(f, it[1]) if d[1] >= 0 and d[0] not in f.descendants(w['i'])] if it[0] == 'var' else []
+                            inits_cur = [strip_cast(tt.t(d[1])) for d in var_defs(f, cur[1]) if d[1] >= 0] if cur[0] == 'var' else []
+                            if not (inits_cur == [('int', 0)] and len(inits_it) == 1 and inits_it[0][0] == 'mcall' and
+                                    inits_it[0][1] == 'std::list::begin' and inits_it[0][2][0] == 'mcall' and
+                                    strip_cast(inits_it[0][2][3][0]) in (('int', 0), cur)):
+                                why = 'begin() does not start at vertex 0 with the first position of its list'
+                            else:
+                                okr = False
+                                for n in f.nodes:
+                                    if n['k'] == 'ReturnStmt' and f.children(n['i']):
+                                        r = tt.t(f.children(n['i'])[0], resolve_refs=False)
+                                        while r[0] in ('ctor', 'cast') and (r[0] == 'cast' or len(r[2]) == 1):
+                                            r = r[2][0] if r[0] == 'ctor' else r[2]
+                                        if r[0] == 'ctor' and len(r[2]) == 3 and r[2][1] == cur and r[2][2] == it:
+                                            okr = True
+                                if not okr:
+                                    why = 'begin() does not return the iterator (graph, cursor, position) reached by the advance loop'
+                if why:
+                    res.fail(Finding('F-IDX', f.display(), 'advance loop', f.where(), why + ': edges after an empty neighbour list are '
+                                     'skipped or enumeration runs past the end'))
+                else:
+                    res.ok(dict(function=f.display(), schema='while (pos == out(cur).end() && cur != endVertex) pos = out(++cur).begin()')
+                           if len(res.samples) < 30 else None, fn=f.display())
+        # ---- operator* yields (vertex, *neighbour); end() is (endVertex, out(endVertex).end())
+        for f in m.by_tname.get(cls + '::Edges::constEdgeIterator::operator*', []):
+            res.sites += 1
+            tt = Terms(f)
+            rets = [n for n in f.nodes if n['k'] == 'ReturnStmt']
+            r = tt.t(f.children(rets[0]['i'])[0]) if len(rets) == 1 else ('none',)
+            while r[0] in ('ctor', 'cast') and r[0] == 'ctor' and len(r[2]) == 1:
+                r = r[2][0]
+            if r[0] == 'pair' and r[1][0] == 'field' and r[1][1].endswith('::vertex') and r[2] == ('deref', ('field', r[1][1].rsplit('::', 1)[0] + '::neighbour')):
+                res.ok(None, fn=f.display())
+            else:
+                res.fail(Finding('F-IDX', f.display(), 'dereference', f.where(), 'operator* must return {vertex, *neighbour}'))
+        for f in m.by_tname.get(cls + '::Edges::end', []):
+            res.sites += 1
+            tt = Terms(f)
+            ok = False
+            for n in f.nodes:
+                if n['k'] == 'ReturnStmt' and f.children(n['i']):
+                    r = tt.t(f.children(n['i'])[0], resolve_refs=False)
+                    while r[0] in ('ctor', 'cast') and (r[0] == 'cast' or len(r[2]) == 1):
+                        r = r[2][0] if r[0] == 'ctor' else r[2]
+                    if r[0] == 'ctor' and len(r[2]) == 3:
+                        v, p = r[2][1], r[2][2]
+                        if v[0] == 'var' and p[0] == 'mcall' and p[1] == 'std::list::end' and p[2][0] == 'mcall' and p[2][3] == (v,):
+                            init = [tt.t(d[1]) for d in var_defs(f, v[1]) if d[1] >= 0]
+                            if any(x[0] in ('call', 'mcall') and x[1].endswith('::getEndVertex') for x in init):
+                                ok = True
+            if ok:
+                res.ok(None, fn=f.display())
+            else:
+                res.fail(Finding('F-IDX', f.display(), 'end position', f.where(),
+                                 'end() must be (endVertex, getOutNeighbours(endVertex).end()) with endVertex = getEndVertex(graph)'))
         # ---- endVertex field initialised from getEndVertex(graph)
         for f in m.by_tname.get(cls + '::Edges::constEdgeIterator::constEdgeIterator', []):
             res.sites += 1
